@@ -164,5 +164,44 @@ func corpusCases(e *lib.Env) []*pcase {
 			out = append(out, c)
 		}
 	}
+	// A batch makes every file an entry of its own: a file that relies on a class declared in
+	// another corpus file (autoloaded by the interpreter from the source tree) is a
+	// multi-file program, which the batch binary does not model. Decided from the sources only.
+	declared := map[*pcase]map[string]bool{}
+	owners := map[string]int{}
+	for _, c := range out {
+		if !strings.HasSuffix(c.Rel, ".php") {
+			continue
+		}
+		d := map[string]bool{}
+		for _, m := range reDeclName.FindAllStringSubmatch(c.Src, -1) {
+			if !d[m[1]] {
+				d[m[1]] = true
+				owners[m[1]]++
+			}
+		}
+		declared[c] = d
+	}
+	for _, c := range out {
+		if c.NoRun || declared[c] == nil {
+			continue
+		}
+		for _, m := range reClassRef.FindAllStringSubmatch(c.Src, -1) {
+			n := m[1]
+			if n == "" {
+				n = m[2]
+			}
+			if owners[n] > 0 && !declared[c][n] {
+				c.NoRun = true
+				c.Features = []string{"needs-class-of-other-file"}
+				break
+			}
+		}
+	}
 	return out
 }
+
+var (
+	reDeclName = regexp.MustCompile(`(?m)^\s*(?:abstract\s+|final\s+|readonly\s+)*(?:class|interface|trait|enum)\s+([A-Za-z_]\w*)`)
+	reClassRef = regexp.MustCompile(`(?:\bnew|\bextends|\bimplements|\binstanceof|\buse|,)\s+\\?(?:\w+\\)*([A-Za-z_]\w*)|\\?(?:\w+\\)*\b([A-Za-z_]\w*)::`)
+)
